@@ -6,6 +6,7 @@ of ton/crypto/vm/dict.cpp (`refLabelKind`).  `Generated.LabelFns` is translated 
 run; `Model.Hashmap` mirrors hashmap.py / utils.py / parse.py.
 -/
 import TonVerif.Proofs.Hashmap
+import TonVerif.Proofs.SrcHashmap
 
 namespace TonVerif.Properties.C10
 open TonVerif TonVerif.Model TonVerif.Model.Hashmap TonVerif.Spec.Hashmap TonVerif.Proofs.Hashmap
@@ -261,5 +262,100 @@ theorem exCell_valid : ValidHashmap 1 exCell
 
 example : parseHashmap exCell 1 = some [([false], ([true, true, true, true], [])), ([true], ([false, false, false, false], []))] :=
   c10_parse_any (by decide) exCell_valid
+
+/-! ### the parser REGENERATED from parse.py (Generated/HashmapSrc.lean, translator pyrec.py / hashmapsrc.py)
+
+`Py.Slice` = (cell type, remaining bits, remaining references); a regenerated function returns its result next to the final
+values of the parameters it mutates; `none` = the Python code raises; `fuel` bounds the recursion depth — every statement
+holds for EVERY fuel ≥ 2·key_length + 2 (Python has no fuel). -/
+
+open TonVerif.Generated.HashmapSrc TonVerif.Proofs.SrcHashmap
+
+/-- LABEL READER FROM THE SOURCE.  `deserialize_hml(ser, m)` as regenerated from parse.py equals the hand model's reader on the
+remaining bits of ANY slice, for EVERY int `m` (also negative): same decision to raise, same `(n, s)`, same bits left. -/
+theorem c10_src_label_reader (ser : Py.Slice) (m : Int) :
+    deserialize_hml ser m = (deserializeHml ser.bits m).map fun t => ((t.1, t.2.1), withBits ser t.2.2) :=
+  deserialize_hml_eq ser m
+
+/-- `deserialize_unary(ser)` from the source = `readUnary`; its `while` loop gives the same result for every loop fuel at least the
+declared variant (the number of remaining bits), so the variant loses nothing. -/
+theorem c10_src_unary (ser : Py.Slice) :
+    deserialize_unary ser = (readUnary ser.bits).map (fun p => (p.1, withBits ser p.2)) ∧
+    ∀ lf n r, ser.bits.length ≤ lf →
+      deserialize_unary_while1 lf (n, r, ser) = deserialize_unary_while1 ser.bits.length (n, r, ser) :=
+  ⟨deserialize_unary_eq ser, fun lf n r h => unary_loop_fuel_indep lf n r ser h⟩
+
+/-- `c10_label_accepted_iff` for the regenerated reader: on the bit pattern of ANY label constructor it returns `(|s|, s)` and
+the slice behind the label iff the pattern is a spec encoding (`{n <= m}` holds), and raises iff the label is longer than `m`. -/
+theorem c10_src_label_accepted_iff {m : Nat} {s : Bits} {k : LabelKind} {lb : Bits} (h : LabelBits m s k lb) (rest : Bits)
+    (kind : Int) (refs : List Cell) :
+    (deserialize_hml ⟨kind, lb ++ rest, refs⟩ (m : Int) = some ((s.length, s), ⟨kind, rest, refs⟩) ↔ LabelEnc m s k lb) ∧
+    (deserialize_hml ⟨kind, lb ++ rest, refs⟩ (m : Int) = none ↔ m < s.length) := by
+  obtain ⟨h1, h2⟩ := c10_label_accepted_iff h rest
+  rw [c10_src_label_reader]
+  constructor
+  · rw [← h1]
+    cases hd : deserializeHml (lb ++ rest) (m : Int) with
+    | none => simp
+    | some t =>
+      obtain ⟨n, s', r'⟩ := t
+      simp only [Option.map_some, Option.some.injEq, Prod.mk.injEq, withBits]
+      constructor
+      · rintro ⟨⟨rfl, rfl⟩, hsl⟩
+        have : r' = rest := by simpa using congrArg Py.Slice.bits hsl
+        subst this; exact ⟨rfl, rfl, rfl⟩
+      · rintro ⟨rfl, rfl, rfl⟩; exact ⟨⟨rfl, rfl⟩, rfl⟩
+  · rw [← h2]; simp
+
+/-- PARSE RECURSION FROM THE SOURCE.  `parse` / `deserialize_hashmap_node` as regenerated from parse.py: for every cell, key
+length, dict and prefix, what `parse` leaves in `ret_dict` is the dict updated (`d[key] = slice`) with the entries of the hand
+model's `parseEdge`, in order — and it raises exactly when the model does. -/
+theorem c10_src_parse (fuel : Nat) (c : Cell) (k : Int) (d : List (Bits × Py.Slice)) (pfx : Bits) (hf : 2 * k.toNat + 2 ≤ fuel) :
+    (parse fuel (Py.beginParse c) k d pfx).map (·.2.1) = (parseEdge c k pfx).map (addAll d) :=
+  src_parse_eq fuel c k d pfx hf
+
+/-- `parse_hashmap(cell.begin_parse(), n)` from the source returns exactly the entries of `parseHashmap` (same keys, same order;
+each value the ordinary slice behind the leaf's label) or raises exactly when it does. -/
+theorem c10_src_parse_hashmap (fuel : Nat) (c : Cell) (n : Nat) (hf : 2 * n + 2 ≤ fuel) :
+    (parse_hashmap fuel (Py.beginParse c) (n : Int)).map (·.1) =
+      (parseHashmap c n).map fun kv => kv.map fun p => (p.1, valSlice p.2) :=
+  src_parse_hashmap_eq fuel c n hf
+
+/-- `c10_parse_any` holds of the regenerated parser: every spec-valid `Hashmap n X` (any label constructors, pruned edges) is
+decoded by the code of parse.py to exactly its non-pruned leaves. -/
+theorem c10_src_parse_any {ok : Nat → Bits → LabelKind → Prop} {p : Bool} {n : Nat} {c : Cell} {kv : List (Bits × Val)}
+    (hn : 0 < n) (h : ValidHMK ok p n c kv) (fuel : Nat) (hf : 2 * n + 2 ≤ fuel) :
+    (parse_hashmap fuel (Py.beginParse c) (n : Int)).map (·.1) = some (kv.map fun p => (p.1, valSlice p.2)) := by
+  rw [c10_src_parse_hashmap fuel c n hf, c10_parse_any hn h]; rfl
+
+/-- the augmented recursion from the source (`parse_aug` / `deserialize_hashmap_aug_node`), for every decoder pair `D`
+(callbacks `x_deserializer = xdOf D`, `y_deserializer = ydOf D`): `ret_dict` and `extras` afterwards are the model's. -/
+theorem c10_src_parse_aug {X Y : Type} (D : AugDec X Y) (fuel : Nat) (c : Cell) (k : Int) (d : List (Bits × X)) (ex : List Y)
+    (pfx : Bits) (hf : 2 * k.toNat + 2 ≤ fuel) :
+    (parse_aug (xdOf D) (ydOf D) fuel (Py.beginParse c) k d ex pfx).map (fun r => (r.2.1, r.2.2.1)) =
+      (parseAugEdge D c k pfx).map (augOut d ex) :=
+  src_parse_aug_eq D fuel c k d ex pfx hf
+
+/-- `c10_parse_any_aug` holds of the regenerated `parse_aug`: entries `d[key] = x` for the leaves, extras in left/right/own order -/
+theorem c10_src_parse_any_aug {X Y : Type} {D : AugDec X Y} {p : Bool} {n : Nat} {c : Cell} {kv : List (Bits × X)} {ex : List Y}
+    (h : ValidAug D p n c kv ex) (fuel : Nat) (hf : 2 * n + 2 ≤ fuel) :
+    (parse_aug (xdOf D) (ydOf D) fuel (Py.beginParse c) (n : Int) [] [] []).map (fun r => (r.2.1, r.2.2.1)) =
+      some (addAllX [] kv, ex) := by
+  rw [c10_src_parse_aug D fuel c n [] [] [] (by simpa using hf), c10_parse_any_aug h]; rfl
+
+/-- an over-long label makes the regenerated `parse_hashmap` raise (root position), for every fuel above the bound -/
+theorem c10_src_label_too_long_rejected {m : Nat} {s : Bits} {k : LabelKind} {lb : Bits} (h : LabelBits m s k lb) (hlong : m < s.length)
+    (rest : Bits) (kind : Int) (refs : List Cell) (fuel : Nat) (hf : 2 * m + 2 ≤ fuel) :
+    parse_hashmap fuel (Py.beginParse (.mk kind (lb ++ rest) refs)) (m : Int) = none := by
+  have h1 := c10_src_parse_hashmap fuel (.mk kind (lb ++ rest) refs) m hf
+  rw [(c10_label_too_long_rejected h hlong rest kind refs []).2.1] at h1
+  simpa using h1
+
+/-! non-vacuity: the regenerated parser on `exCell` (non-canonical constructors), and on an over-long label -/
+example : (parse_hashmap 4 (Py.beginParse exCell) 1).map (·.1) =
+    some [([false], ⟨-1, [true, true, true, true], []⟩), ([true], ⟨-1, [false, false, false, false], []⟩)] :=
+  c10_src_parse_any (by decide) exCell_valid 4 (by decide)
+example : parse_hashmap 6 (Py.beginParse (.mk (-1) [true, true, true, true, true] [])) 2 = none := by rfl
+example : (deserialize_hml ⟨-1, [true, true, true, true, false, true], []⟩ 2).map (·.1) = some (2, [true, true]) := by rfl
 
 end TonVerif.Properties.C10
